@@ -79,11 +79,18 @@ public:
     bool isEqual(const void* a, const void* b) CPPUTEST_OVERRIDE { if (g_nestedCmp) mock("cmp").actualCall("isEqual"); return ((const MyType*)a)->x == ((const MyType*)b)->x && ((const MyType*)a)->x != 5; }
     SimpleString valueToString(const void* a) CPPUTEST_OVERRIDE { return StringFromFormat("Second[%d]", ((const MyType*)a)->x); }
 };
+class MyType3Comparator : public MockNamedValueComparator {       // not symmetric: an expected n accepts an actual n or n+1 (first argument = the expected object, as the framework calls it)
+public:
+    bool isEqual(const void* e, const void* a) CPPUTEST_OVERRIDE { return ((const MyType*)e)->x == ((const MyType*)a)->x || ((const MyType*)e)->x + 1 == ((const MyType*)a)->x; }
+    SimpleString valueToString(const void* a) CPPUTEST_OVERRIDE { return StringFromFormat("Third<%d>", ((const MyType*)a)->x); }
+};
 static const double tolPool[4] = { 0.0, 0.0, 0.3, -1.0 };      // index 1: exact match asked for explicitly
 extern "C" {
 static int myTypeEqualC(const void* a, const void* b) { if (g_nestedCmp) mock_scope_c("cmp")->actualCall("isEqual"); return ((const MyType*)a)->x == ((const MyType*)b)->x && ((const MyType*)a)->x != 5; }
 static const char* myTypeToStringC(const void* a) { static char buf[32]; snprintf(buf, sizeof buf, "MyType(%d)", ((const MyType*)a)->x); return buf; }
 static void myTypeCopyC(void* dst, const void* src) { *(MyType*)dst = *(const MyType*)src; }
+static int myType3EqualC(const void* e, const void* a) { return ((const MyType*)e)->x == ((const MyType*)a)->x || ((const MyType*)e)->x + 1 == ((const MyType*)a)->x; }
+static const char* myType3ToStringC(const void* a) { static char buf[32]; snprintf(buf, sizeof buf, "Third<%d>", ((const MyType*)a)->x); return buf; }
 static const char* myType2ToStringC(const void* a) { static char buf[32]; snprintf(buf, sizeof buf, "Second[%d]", ((const MyType*)a)->x); return buf; }
 }
 
@@ -101,7 +108,7 @@ struct CallPlan { int fn; int obj; Vec<int> vals; Str dev; int task; bool extra;
 struct ExpPlan { int fn; int count; int flags; int obj; Vec<int> vals; int ret; int scope; };      // flags: 1 ignoreOtherParameters, 2 named scope, 4 short form (last parameter not specified, and not passed by its calls)
 struct Scenario { bool strict, ignoreOther, useScope, preFail; bool nestedCmp /* comparators make a mock call of their own */; bool scopeCopier /* the custom type's copier is installed through the named scope only */; bool unmodOut /* the int output parameter is expected unmodified; calls may then pass no destination (NULL) */; bool crashOn /* crashOnFailure switched on: the crash method (a counter here) must be asked for by the same failures through both interfaces */; bool leaveDisabled /* the body ends by switching the mock off */; bool otherVal /* also read a value through the other mock support (known finding C19-support-level-value-of-other-scope) */; int rounds; int type2 /* fn6's object parameter uses a second custom type: same equality function, other to-string */, tol /* 0 none, else index into tolPool for fn3's double parameter */; Vec<ExpPlan> exps; Vec<CallPlan> calls; Vec<Op> data; };
 
-static const char* objType(const Scenario& sc) { return sc.type2 ? "MyType2" : "MyType"; }
+static const char* objType(const Scenario& sc) { return sc.type2 == 2 ? "MyType3" : (sc.type2 ? "MyType2" : "MyType"); }
 // how many parameters an expectation specifies: all, or all but the last for ignoreOtherParameters (functions with two or more) and for the short form (functions with one or more)
 static int specCount(const Fn& F, int flags) { if ((flags & 4) && F.np >= 1) return F.np - 1; if ((flags & 1) && F.np > 1) return F.np - 1; return F.np; }
 struct Front {
@@ -156,6 +163,7 @@ struct CppFront : public Front {
         static MyTypeComparator cmp; static MyTypeCopier cp;
         mock().installComparator("MyType", cmp); if (sc.scopeCopier) mock("scope1").installCopier("MyType", cp); else mock().installCopier("MyType", cp);
         static MyType2Comparator cmp2; mock().installComparator("MyType2", cmp2); mock().installCopier("MyType2", cp);
+        static MyType3Comparator cmp3; mock().installComparator("MyType3", cmp3); mock().installCopier("MyType3", cp);
         mock("scope1");                                  // the named scope exists before anything recursive is switched on
         if (sc.strict) m(sc).strictOrder();
         if (sc.ignoreOther) mock().ignoreOtherCalls();
@@ -326,6 +334,7 @@ struct CFront : public Front {
     void begin(const Scenario& sc) {
         mock_c()->installComparator("MyType", myTypeEqualC, myTypeToStringC); if (sc.scopeCopier) mock_scope_c("scope1")->installCopier("MyType", myTypeCopyC); else mock_c()->installCopier("MyType", myTypeCopyC);
         mock_c()->installComparator("MyType2", myTypeEqualC, myType2ToStringC); mock_c()->installCopier("MyType2", myTypeCopyC);
+        mock_c()->installComparator("MyType3", myType3EqualC, myType3ToStringC); mock_c()->installCopier("MyType3", myTypeCopyC);
         mock_scope_c("scope1");
         if (sc.strict) m(sc)->strictOrder();
         if (sc.ignoreOther) mock_c()->ignoreOtherCalls();
@@ -567,7 +576,7 @@ struct Engine : public vf::Engine {
         for (int s = 0; s < nScen; s++) {
             Group G; G.tag = "scenario";
             bool strict = w.chance(1, 4), ignoreOther = w.chance(1, 5), scope = w.chance(1, 5);
-            G.args.push_back(strict); G.args.push_back(ignoreOther); G.args.push_back(scope); G.args.push_back(w.chance(1, cfront ? 6 : 10)); G.args.push_back(cfront && w.chance(1, 6) ? 2 : 1); G.args.push_back(cfront && w.chance(1, 5)); G.args.push_back(cfront && w.chance(1, 5) ? (int64_t)w.range(1, 3) : 0); G.args.push_back(cfront && w.chance(1, 12)); G.args.push_back(cfront && w.chance(1, 6)); G.args.push_back(cfront && w.chance(1, 6)); G.args.push_back(cfront && w.chance(1, 6)); G.args.push_back(cfront && w.chance(1, 8)); G.args.push_back(w.chance(1, 8));
+            G.args.push_back(strict); G.args.push_back(ignoreOther); G.args.push_back(scope); G.args.push_back(w.chance(1, cfront ? 6 : 10)); G.args.push_back(cfront && w.chance(1, 6) ? 2 : 1); G.args.push_back(cfront && w.chance(1, 5) ? (w.chance(1, 3) ? 2 : 1) : 0); G.args.push_back(cfront && w.chance(1, 5) ? (int64_t)w.range(1, 3) : 0); G.args.push_back(cfront && w.chance(1, 12)); G.args.push_back(cfront && w.chance(1, 6)); G.args.push_back(cfront && w.chance(1, 6)); G.args.push_back(cfront && w.chance(1, 6)); G.args.push_back(cfront && w.chance(1, 8)); G.args.push_back(w.chance(1, 8));
             bool mixedScopes = !strict && !scope && w.chance(1, 4), shortForms = w.chance(1, 5);
             int nFn = (int)w.range(1, 4); int fns[4]; for (int i = 0; i < nFn; i++) fns[i] = (int)w.below(N_FN);
             int nExp = (int)w.small(1, 12);
@@ -806,7 +815,7 @@ struct Engine : public vf::Engine {
             runOnce(scs, orders, cpp, outs, fails);
             for (size_t i = 0; i < scs.size(); i++) {
                 Vec<Cls> cls;
-                if (scs[i].scopeCopier || scs[i].unmodOut) { h.u64(outs[i].failures); continue; }      // (features of the C-versus-C++ comparison only: the reference matcher does not model a missing copier or an unmodified output parameter)
+                if (scs[i].scopeCopier || scs[i].unmodOut || scs[i].type2 == 2) { h.u64(outs[i].failures); continue; }      // (features of the C-versus-C++ comparison only: the reference matcher does not model a missing copier or an unmodified output parameter)
                 if (scs[i].preFail) {      // the test failed on its own; the mock check in its teardown (and the plugin's) must not fail it a second time
                     probe("scenario_fails_before_mock_check");
                     if (outs[i].failures != 1) r.fail("C08", "fails_once", sg("what", outs[i].failures > 1 ? "a test that had already failed was failed again by the mock check" : "the test's own failure was lost"), sfmt("scenario %zu schedule %d: %zu failures recorded", i, k, outs[i].failures));
